@@ -27,12 +27,24 @@ type funcExecCase struct {
 func funcExecComponent(g *G, n int, opts map[string]string) *Out {
 	g.mode = opts["mode"]
 	o := newOut("Corr.FuncExecCorr", "fcase")
+	var replay []*funcExecCase
+	if path := opts["replay"]; path != "" {
+		var w struct {
+			Cases []*funcExecCase `json:"cases"`
+		}
+		loadJSON(path, &w)
+		replay = w.Cases
+		n = len(replay)
+	}
 	for i := 0; i < n; i++ {
 		a := g.act(g.chance(0.4))
 		for a.hasLoop() && !g.chance(0.1) {
 			a = g.act(false)
 		}
 		st := g.astate(&ASpec{Nodes: map[string]*ANode{"start": {}}})
+		if replay != nil {
+			a, st = replay[i].Act, &AState{Node: "start", Bs: replay[i].Bs}
+		}
 		var action core.Action
 		if a.Native {
 			action = a.P.Native(a.ExeOnError)
